@@ -21,8 +21,8 @@ COMPONENTS = {"real": ["allocator", "mark", "weak reset", "finalizers", "sweep",
               "stub": ["collection schedule", "clock"]}
 BUDGET = {"quick": {"seconds": 60, "cases": 3000}, "thorough": {"seconds": 1200, "cases": 200000}}
 CONFIGS = {
-    "sim": {"variant": "sim", "imports": ["(srfi 18)", "(srfi 69)", "(chibi weak)"], "timeout_ms": 120000},
-    "asan": {"variant": "asan", "imports": ["(srfi 18)", "(srfi 69)", "(chibi weak)"], "timeout_ms": 300000},
+    "sim": {"variant": "sim", "imports": ["(srfi 18)", "(srfi 69)", "(chibi weak)", "(rename (only (chibi) read) (read core-read))"], "timeout_ms": 120000},
+    "asan": {"variant": "asan", "imports": ["(srfi 18)", "(srfi 69)", "(chibi weak)", "(rename (only (chibi) read) (read core-read))"], "timeout_ms": 300000},
 }
 GROWTH_C = 40
 
@@ -125,6 +125,14 @@ def gen_history(rng, tier, scale=1.0):
                 ops.append("(link %d %d)" % (rng.below(nroots), rng.below(nroots)))
             if rng.chance(1, 5):
                 ops.append("(sim-gc)")
+        if rng.chance(1, 3):
+            # data with datum labels read by the core reader (which borrows the mark bit as a visited flag), then fresh objects
+            # stored into its interior before the next collection
+            r1, tag = rng.below(nroots), rng.below(1000)
+            ops.append("(vector-set! R %d (core-read (open-input-string \"(#0=(p%d q) #1=#(r #0# s) #1# #0# #2=(t . #2#))\")))" % (r1, tag))
+            ops.append("(let ((d (vector-ref R %d))) (set-car! (car d) (make-vector 3 'fresh)) (vector-set! (cadr d) 0 (list 'fresh2 %d)) (set-car! (list-ref d 4) (string-append \"fr\" \"esh\")) 'ok)" % (r1, tag))
+            if rng.chance(1, 2):
+                ops.append("(sim-gc)")
         ops.append("(drop-burst %d %d)" % (rng.below(3), rng.choice([1, 1, 2, 10])))
         if rng.chance(1, 2):
             ops.append("(sim-gc)")
@@ -174,7 +182,7 @@ def generate(rng, tier, index, seed):
         # any size an embedder may pass, not only multiples of the heap alignment unit
         base = rng.choice([0, 64 * 1024, 512 * 1024, 1024 * 1024, 8 * 1024 * 1024, 50000, 300000])
         knobs = {"fresh_ctx": True, "heap": base + (rng.choice([0, 0, 1, 8, 17, 24, 31]) if base else 0),
-                 "imports": ["(srfi 18)", "(srfi 69)", "(chibi weak)"], "prepad": rng.choice([0, 4096, 1 << 20])}
+                 "imports": ["(srfi 18)", "(srfi 69)", "(chibi weak)", "(rename (only (chibi) read) (read core-read))"], "prepad": rng.choice([0, 4096, 1 << 20])}
     steps = [{"op": "eval", "src": PRELUDE}] + [{"op": "eval", "src": o} for o in ops]
     return {"prop": ID, "index": index, "seed": seed, "config": variant, "meta": {"family": "history-" + mode + ("-fresh" if knobs else "")},
             "steps": steps, "gc": gc, "knobs": knobs, "sched": {"default_q": 500, "tick_budget": 50000000}}
